@@ -139,7 +139,12 @@ func newGenericObjectSetController(
 		},
 	)
 
-	controller.teardownHandler = phasesReconciler
+	sliceLoadReconciler := newObjectSliceLoadReconciler(scheme, client, newObjectSlice)
+
+	controller.teardownHandler = &sliceLoadingTeardownHandler{
+		sliceLoader:     sliceLoadReconciler,
+		teardownHandler: phasesReconciler,
+	}
 
 	controller.reconciler = []reconciler{
 		&revisionReconciler{
@@ -147,11 +152,28 @@ func newGenericObjectSetController(
 			client:       client,
 			newObjectSet: newObjectSet,
 		},
-		newObjectSliceLoadReconciler(scheme, client, newObjectSlice),
+		sliceLoadReconciler,
 		phasesReconciler,
 	}
 
 	return controller
+}
+
+// sliceLoadingTeardownHandler inlines the objects of all referenced ObjectSlices
+// before tearing down, so objects listed via slices are cleaned up (and waited for)
+// exactly like objects listed inline.
+type sliceLoadingTeardownHandler struct {
+	sliceLoader     reconciler
+	teardownHandler teardownHandler
+}
+
+func (h *sliceLoadingTeardownHandler) Teardown(
+	ctx context.Context, objectSet adapters.ObjectSetAccessor,
+) (cleanupDone bool, err error) {
+	if _, err := h.sliceLoader.Reconcile(ctx, objectSet); err != nil {
+		return false, fmt.Errorf("loading ObjectSlices for teardown: %w", err)
+	}
+	return h.teardownHandler.Teardown(ctx, objectSet)
 }
 
 func (c *GenericObjectSetController) SetupWithManager(mgr ctrl.Manager) error {
